@@ -1,6 +1,7 @@
 package props
 
 import (
+	"io"
 	"strings"
 
 	"github.com/wkhere/bcl"
@@ -28,6 +29,14 @@ func c06Run(src []byte, file bool) {
 	var err error
 	if file {
 		f := &symio.File{Data: src}
+		switch verif.Choice("reader", 3) {
+		case 1: // first half, then the rest together with io.EOF
+			f.Script = []symio.Step{{N: len(src) / 2}, {N: len(src), Err: io.EOF}}
+		case 2: // one byte at a time
+			for i := 0; i < len(src); i++ {
+				f.Script = append(f.Script, symio.Step{N: 1})
+			}
+		}
 		p, err = bcl.ParseFile(f, bcl.OptOutput(out), bcl.OptLogger(log))
 	} else {
 		p, err = bcl.Parse(src, "x", bcl.OptOutput(out), bcl.OptLogger(log))
@@ -192,4 +201,17 @@ func C06_BlockValues() {
 	} else {
 		verif.Reach("executed")
 	}
+}
+
+// C06_Tokens: sequences of two vocabulary tokens after `print 1 ` and inside a
+// block (keywords and operators in operand and operator positions).
+func C06_Tokens() {
+	ctx := verif.Choice("context", 3)
+	pre := []string{"print 1 ", "def b { x = 1 ", "var a = 1\neval a "}[ctx]
+	suf := []string{"", " }", ""}[ctx]
+	src := pre
+	for i := 0; i < 2; i++ {
+		src += c17Vocabulary[verif.Choice("slot", len(c17Vocabulary))] + " "
+	}
+	c06Run([]byte(src+suf), false)
 }
